@@ -921,9 +921,11 @@ def evaluate__tokenize(self: XPathFunction, context: ta.ContextType = None) -> t
 
     result = []
     if input_string:
-        for value in re_pattern.split(input_string):
-            if value is not None and re_pattern.search(value) is None:
-                result.append(value)
+        k = 0
+        for match in re_pattern.finditer(input_string):
+            result.append(input_string[k:match.start()])
+            k = match.end()
+        result.append(input_string[k:])
 
         if len(result) == 1:
             return result[0]
